@@ -694,3 +694,28 @@ void carquet_dispatch_fill_def_levels(int16_t* def_levels, int64_t count, int16_
     if (!g_dispatch_initialized) carquet_simd_dispatch_init();
     g_dispatch.fill_def_levels(def_levels, count, value);
 }
+
+#ifdef CARQUET_VERIF
+/* Verification hook: the i-th entry of the dispatch table as a generic
+ * pointer (NULL beyond the last), so that the kernel selected for a
+ * capability set can be identified without being executed. */
+const void* carquet_verif_dispatch_entry(int i) {
+    if (!g_dispatch_initialized) {
+        carquet_simd_dispatch_init();
+    }
+    const void* e[] = {
+        (const void*)g_dispatch.prefix_sum_i32, (const void*)g_dispatch.prefix_sum_i64,
+        (const void*)g_dispatch.gather_i32, (const void*)g_dispatch.gather_i64,
+        (const void*)g_dispatch.gather_float, (const void*)g_dispatch.gather_double,
+        (const void*)g_dispatch.byte_split_encode_float, (const void*)g_dispatch.byte_split_decode_float,
+        (const void*)g_dispatch.byte_split_encode_double, (const void*)g_dispatch.byte_split_decode_double,
+        (const void*)g_dispatch.unpack_bools, (const void*)g_dispatch.pack_bools,
+        (const void*)g_dispatch.find_run_length_i32, (const void*)g_dispatch.crc32c,
+        (const void*)g_dispatch.match_copy, (const void*)g_dispatch.match_length,
+        (const void*)g_dispatch.count_non_nulls, (const void*)g_dispatch.build_null_bitmap,
+        (const void*)g_dispatch.fill_def_levels
+    };
+    return (i >= 0 && i < (int)(sizeof(e) / sizeof(e[0]))) ? e[i] : 0;
+}
+#endif
+
